@@ -9,7 +9,7 @@ CONSTANTS
   MaxHeartbeats = 2
   MaxLog = 8
   MaxNet = 8
-  MaxEnts = 1
+  MaxEnts = 0
   LossySend = FALSE
   SimDepth = 40
   W_CommitAnyTerm = FALSE
@@ -19,17 +19,18 @@ CONSTANTS
   W_AppendAlwaysTruncates = FALSE
   W_HeartbeatCommitUnbounded = FALSE
   W_QuorumMinusOne = FALSE
-  PreVote = TRUE
+  PreVote = FALSE
   W_PreVoteRespCountsAsVote = FALSE
-  ConfChange = FALSE
-  InitVoters = {1, 2, 3}
-  AddVoters = {}
-  RemoveVoters = {}
-  MaxConfChanges = 0
-  MaxConfRefusals = 0
+  ConfChange = TRUE
+  InitVoters = {1, 2}
+  AddVoters = {3}
+  RemoveVoters = {1, 2}
+  MaxConfChanges = 2
+  MaxConfRefusals = 1
   W_ConfChangeNoPendingCheck = FALSE
   W_AddedVoterCaughtUp = FALSE
 INIT Init
 NEXT Next
 CONSTRAINT NetBound
+ACTION_CONSTRAINT CrashAfterConfChange
 INVARIANTS ElectionSafety LogMatching StateMachineSafety LeaderCompleteness CommitWithinLog PersistedMatchesVolatile MatchSound EmitSim
